@@ -6,13 +6,15 @@ From HailV Require Import Common.Prelude.
 
 Inductive ty :=
 | TI32 | TI64 | TF32 | TF64 | TBool | TStr
-| TArr (t : ty) | TStream (t : ty) | TStruct (fs : list (N * ty)) | TTuple (ts : list ty).
+| TArr (t : ty) | TStream (t : ty) | TStruct (fs : list (N * ty)) | TTuple (ts : list ty)
+| TInterval (t : ty).                  (* interval<t>: key type of interval-keyed tables *)
 
 Fixpoint ty_eqb (a b : ty) : bool :=
   match a, b with
   | TI32, TI32 | TI64, TI64 | TF32, TF32 | TF64, TF64 | TBool, TBool | TStr, TStr => true
   | TArr x, TArr y => ty_eqb x y
   | TStream x, TStream y => ty_eqb x y
+  | TInterval x, TInterval y => ty_eqb x y
   | TStruct fs, TStruct gs =>
       (fix go (fs gs : list (N * ty)) : bool :=
          match fs, gs with
@@ -40,7 +42,7 @@ Definition of_rank (r : nat) : ty :=
 Inductive binop := Add | Sub | Mul | FloorDiv | Div.
 Inductive unop := Neg | Not.
 Inductive cmpop := Lt | Le | Gt | Ge | Eq | Ne.
-Inductive fn := ToInt32 | ToInt64 | ToFloat32 | ToFloat64 | FConcat | FLength | FIndexArray | FStr.
+Inductive fn := ToInt32 | ToInt64 | ToFloat32 | ToFloat64 | FConcat | FLength | FIndexArray | FStr | FInterval.
 
 Inductive ir :=
 | I32 (z : Z) | I64 (z : Z) | F64 (q : N) | Str (s : N) | TrueIR | FalseIR
@@ -51,7 +53,8 @@ Inductive ir :=
 | InsertFields (o : ir) (fs : list (N * ir)) | SelectFields (o : ir) (fs : list N)
 | MakeArray (es : list ir) | ArrayLen (a : ir) | CastToArray (a : ir) | ToArray (a : ir) | ToStream (a : ir)
 | StreamMap (x : N) (a b : ir) | StreamFilter (x : N) (a b : ir) | StreamFold (acc x : N) (a z b : ir)
-| MakeTuple (es : list ir) | GetTupleElement (o : ir) (i : nat).
+| MakeTuple (es : list ir) | GetTupleElement (o : ir) (i : nat)
+| Coalesce (a b : ir).                  (* Table.filter wraps its predicate: Coalesce(pred, False) *)
 
 (** *** type environments and struct types *)
 Definition tenv := list (N * ty).
@@ -87,6 +90,7 @@ Definition sig_ok (f : fn) (args : list ty) (ret : ty) : bool :=
   | FLength, [TStr] => ty_eqb ret TI32
   | FIndexArray, [TArr t; TI32] => ty_eqb ret t
   | FStr, [_] => ty_eqb ret TStr
+  | FInterval, [a; b; TBool; TBool] => ty_eqb a b && ty_eqb ret (TInterval a)
   | _, _ => false
   end.
 
@@ -172,6 +176,11 @@ Fixpoint ir_type (g : tenv) (x : ir) : option ty :=
       end
   | MakeTuple es => option_map TTuple (all_some (map (ir_type g) es))
   | GetTupleElement o i => match ir_type g o with Some (TTuple ts) => nth_error ts i | _ => None end
+  | Coalesce a b =>
+      match ir_type g a, ir_type g b with
+      | Some ta, Some tb => if ty_eqb ta tb then Some ta else None
+      | _, _ => None
+      end
   end.
 
 (** *** front-end programs: what the user writes with the expression API *)
@@ -185,7 +194,8 @@ Inductive fe :=
 | EArray (es : list fe) | ELen (e : fe) | EIndex (e i : fe)
 | EMap (x : N) (a b : fe) | EFilter (x : N) (a b : fe) | EFold (acc x : N) (a z b : fe)
 | ETuple (es : list fe) | ETupleGet (e : fe) (i : nat)
-| ECast (t : ty) (e : fe) | EStrOf (e : fe) | EConcat (a b : fe).
+| ECast (t : ty) (e : fe) | EStrOf (e : fe) | EConcat (a b : fe)
+| EInterval (a b : fe).                 (* hl.interval(a, b): both ends of the same type, closed-open *)
 
 Definition to_fn (t : ty) : fn := match t with TI32 => ToInt32 | TI64 => ToInt64 | TF32 => ToFloat32 | _ => ToFloat64 end.
 (* Coercer.coerce: nothing if the type is already right, else the conversion function *)
@@ -421,6 +431,12 @@ Fixpoint elab (g : tenv) (e : fe) : option (ty * ir) :=
       | Some (TStr, xa), Some (TStr, xb) => Some (TStr, Apply FConcat TStr [xa; xb])
       | _, _ => None
       end
+  | EInterval a b =>
+      match elab g a, elab g b with
+      | Some (ta, xa), Some (tb, xb) =>
+          if ty_eqb ta tb then Some (TInterval ta, Apply FInterval (TInterval ta) [xa; xb; TrueIR; FalseIR]) else None
+      | _, _ => None
+      end
   end.
 
 Definition fe_type (g : tenv) (e : fe) : option ty := option_map fst (elab g e).
@@ -541,7 +557,7 @@ Fixpoint has_type (t : ty) (v : pv) : bool :=
     | TBool => match v with PBool _ => true | _ => false end
     | TStr => match v with PStr _ => true | _ => false end
     | TArr te => match v with PList l | PTuple l => forallb (has_type te) l | _ => false end
-    | TStream _ => false
+    | TStream _ | TInterval _ => false
     | TTuple ts =>
         match v with
         | PTuple l =>
